@@ -324,7 +324,7 @@ K("c11_bell_powers", "bellerophon", C11L + ["C14", "C08"], "get_small(i<10) / ge
 
 # =========================================================================== per-property claims
 A_LEMIRE = "A-LEMIRE: for decimal exponents q outside [0,27] the 128-bit truncated product suffices whenever Eisel-Lemire does not decline (Mushtak & Lemire 2023), and a declined estimate truncates to a float b with b <= value < b + 1.5 ulp - number theory beyond the SAT back end; ASSUMED"
-A_CLINGER = "A-CLINGER: Bellerophon's accumulated `errors` (table truncation <= 1 ulp, product rounding <= 1/2 ulp, in 1/8-ulp units) bound the true error - ASSUMED (band soundness given that bound is proved)"
+A_CLINGER = "A-CLINGER: the ARITHMETIC part of Bellerophon's error budget (table truncation <= 1 ulp, rounding of each extended product <= 1/2 ulp, in 1/8-ulp units) bounds the true error of the two multiplications - ASSUMED. Proved: the truncation part of the budget (c11_bell_truncation_*), band soundness for any budget (c11_bell_band_*), and that the exact value of truncation_error is 8*floor((2^64-1)/w) was inspected, not discharged (divider vs multiplier)"
 A_IEEE = "A-IEEE: the hardware's f32/f64 `*` and `/` on exactly representable operands return the correctly rounded result (CBMC's float circuits versus an integer oracle timed out) - ASSUMED; which single operation is applied to which exact operands is proved"
 A_TIE = "L-TIE: w*10^q with q in [24,27] (f32: [11,27]) is never an exact rounding tie (5^q | 2m+1 < 2^54 forces q <= 23; 2^25 -> q <= 10) - pen-and-paper lemma, ASSUMED"
 A_CAP = "L-CAP: with <= 770 digits, decimal exponents inside the moderate stage's table range and an estimate within 2 ulp, every big integer formed is below 2^3968 (62 limbs) - pen-and-paper bound in DESIGN.md, ASSUMED (the operations' None-iff-too-large behaviour at the capacity edge is checked)"
